@@ -233,6 +233,12 @@ MUTANTS = [
     ('C20', 'mapping-new-oid-without-lock', MS,
      "    @ZODB.utils.locked(opened)\n    def new_oid(self):",
      "    def new_oid(self):"),
+    ('C16', 'demo-pack-flag-unset-for-given-changes', DS,
+     "        else:\n            self._temporary_changes = False\n",
+     "        else:\n"),
+    ('C16', 'demo-pack-also-packs-base', DS,
+     "        try:\n            self.changes.pack(t, referencesf, gc=False)",
+     "        try:\n            getattr(self.base, 'pack', lambda *a, **k: 0)(t, referencesf, gc=False)\n            self.changes.pack(t, referencesf, gc=False)"),
     ('C16', 'demo-loadbefore-ignores-base', DS,
      "        if result is None:\n            # The oid *was* in the changes, but there aren't any\n            # earlier records. Maybe there are in the base.\n            try:\n                result = self.base.loadBefore(oid, tid)",
      "        if result is None:\n            # The oid *was* in the changes, but there aren't any\n            # earlier records. Maybe there are in the base.\n            try:\n                result = None"),
